@@ -494,7 +494,10 @@ MustReport(s) ==
   /\ s.id \notin {"checkersReport", "unmatchedSuppression"}
   /\ \/ s.inl /\ s.checked
      \/ ~s.inl /\ ~s.local /\ (s.checked \/ ~s.wild)
-     \/ ~s.inl /\ s.local /\ s.checked
+     \* a consulted command-line entry for one file is reported when that file is one of the ANALYSED SOURCE files (the
+     \* unmatched entries are collected per analysed file); an entry that names a header is never collected. The run layer
+     \* does not know which names are source files, so nothing is demanded here - Unmatched.tla (O4) demands the report for
+     \* entries that name a source file.
 
 \* `--suppress=unmatchedSuppression...' silences (some of) the reports: then nothing is demanded
 Silenced == \E k \in DOMAIN sl["main"] : sl["main"][k].id = "unmatchedSuppression"
